@@ -83,6 +83,7 @@ def run_sisdr_generic(key):
     s = r.standard_normal(lead + (T,))
     n = r.standard_normal(lead + (T,))
     e = mix * s + (1 - mix) * n
+    s, e = A.relayout(s, key.get('layout', 'C')), A.relayout(e, key.get('layout', 'C'))
     s.setflags(write=False)
     e.setflags(write=False)
     try:
@@ -155,6 +156,7 @@ def run_output_sxr(key):
     noise = signals(seed, 'generic' if kind == 'clean' else kind, (Kt, T), 'noise') * (0.3 if kind != 'clean' else 3e-3)
     if kind == 'integer':
         noise = signals(seed, kind, (Kt, T), 'noise')
+    img, noise = A.relayout(img, key.get('layout', 'C')), A.relayout(noise, key.get('layout', 'C'))
     img.setflags(write=False)
     noise.setflags(write=False)
     sdr, sir, snr, sel, gap = ref_output_sxr(img, noise)
@@ -228,6 +230,7 @@ def run_input_sxr(key):
         noise = signals(seed, kind, (D, T), 'in-noise')
         if not noise.any():
             noise[0, 0] = 1
+    img, noise = A.relayout(img, key.get('layout', 'C')), A.relayout(noise, key.get('layout', 'C'))
     img.setflags(write=False)
     noise.setflags(write=False)
     S = np.array([[float(np.mean(img[k, d] ** 2)) for d in range(D)] for k in range(K)])
@@ -324,8 +327,11 @@ def subchecks(tier, seed):
             for lead in ((), (2,), (2, 3)):
                 for T in (8, 64, 4096):
                     for mix in (0.0, 0.1, 0.5, 0.9, 1.0):
-                        yield (lead, T, mix, seed)
-    subs.append(Sub('si_sdr_generic', ('lead', 'T', 'mix', 'seed'), gen_cases, run_sisdr_generic))
+                        yield (lead, T, mix, 'C', seed)
+                        if lead and T == 64:
+                            for lay in A.LAYOUTS[1:]:
+                                yield (lead, T, mix, lay, seed)
+    subs.append(Sub('si_sdr_generic', ('lead', 'T', 'mix', 'layout', 'seed'), gen_cases, run_sisdr_generic))
 
     def out_cases():
         for seed in seeds_:
@@ -336,8 +342,11 @@ def subchecks(tier, seed):
                     for kind in ('integer', 'generic', 'clean'):
                         for T in (8, 64) + ((4096,) if thorough else ()):
                             for v in range(3 if not thorough else 6):
-                                yield (Ks, Kt, kind, T, seed * 100 + v)
-    subs.append(Sub('output_sxr', ('Ks', 'Kt', 'kind', 'T', 'seed'), out_cases, run_output_sxr,
+                                yield (Ks, Kt, kind, T, 'C', seed * 100 + v)
+                            if kind == 'generic' and T == 8:
+                                for lay in A.LAYOUTS[1:]:
+                                    yield (Ks, Kt, kind, T, lay, seed * 100)
+    subs.append(Sub('output_sxr', ('Ks', 'Kt', 'kind', 'T', 'layout', 'seed'), out_cases, run_output_sxr,
                     require_flags=('non_identity_selection',)))
 
     def in_cases():
@@ -346,8 +355,11 @@ def subchecks(tier, seed):
                 for D in (1, 2, 3, 5):
                     for kind in ('integer', 'generic', 'clean'):
                         for T in (8, 64):
-                            yield (K, D, kind, T, seed)
-    subs.append(Sub('input_sxr', ('K', 'D', 'kind', 'T', 'seed'), in_cases, run_input_sxr))
+                            yield (K, D, kind, T, 'C', seed)
+                            if kind == 'generic' and T == 8:
+                                for lay in A.LAYOUTS[1:]:
+                                    yield (K, D, kind, T, lay, seed)
+    subs.append(Sub('input_sxr', ('K', 'D', 'kind', 'T', 'layout', 'seed'), in_cases, run_input_sxr))
 
     def snr_cases():
         for seed in seeds_:
